@@ -323,6 +323,8 @@ func runC18(c *Cfg) {
 							}
 							continue
 						}
+						cases = append(cases, &ActCase{Family: "grid-batch-cancelled-in-prep", Kind: "batch", Post: post, Routed: routed, N: n, C: cc, Shape: "results", Build: "builder", Stop: stop, FailAt: -1, CancelInPrep: true})
+						cases = append(cases, &ActCase{Family: "grid-empty-action-connected-last", Kind: "batch", Post: post, Routed: routed, N: n, C: cc, Shape: "any", Build: "compose", Stop: stop, FailAt: -1, EmptyLast: true})
 						for fail := -1; fail < n; fail++ {
 							cases = append(cases, &ActCase{Family: "grid", Kind: "batch", Post: post, Routed: routed, N: n, C: cc, Shape: "results", Build: "builder", Stop: stop, FailAt: fail})
 							cases = append(cases, &ActCase{Family: "grid", Kind: "batch", Post: post, Routed: routed, N: n, C: cc, Shape: "any", Build: "compose", Stop: stop, FailAt: fail})
